@@ -183,13 +183,13 @@ and d_expression (Expression bs) =
 
 let program_of s = match s with
   | X.List (X.Atom "Program" :: stmts) ->
-    Program (List.map (function
+    (List.map (function
         | X.List [X.Atom "TypeAlias"; n; X.List ps; ty] ->
           TypeAlias (opt_atom n, List.map (fun x -> intern (X.atom x)) ps, sx_of ty)
         | X.List [X.Atom "Expression"; sq] -> StmtExpression (sequence_of sq)
         | _ -> failwith "statement") stmts)
   | _ -> failwith "program"
-let d_program (Program stmts) =
+let d_program (stmts : program) =
   ls "Program" (List.map (function
       | TypeAlias (n, ps, ty) -> ls "TypeAlias" [d_opt_atom n; X.List (List.map (fun x -> at (name_of x)) ps); d_sx ty]
       | StmtExpression sq -> ls "Expression" [d_sequence sq]) stmts)
